@@ -29,12 +29,13 @@ def treegen_types():
 
 
 def corpus():
-    sub = [("L", b"STR", False, 1), ("L", b"NUM", False, 2), ("L", b"HDR", False, 3), ("L", b"THREE", False, 4), ("L", b"ERRS", False, 5), ("L", b"QUOT", False, 6), ("L", b"BLK", False, 7), ("L", b"HH", False, 8)]
+    sub = [("L", b"STR", False, 1), ("L", b"NUM", False, 2), ("L", b"HDR", False, 3), ("L", b"THREE", False, 4), ("L", b"ERRS", False, 5), ("L", b"QUOT", False, 6), ("L", b"BLK", False, 7), ("L", b"HH", False, 8), ("L", b"NLB", False, 9)]
     sc = {1: ([], ["ds706f7461746f"]), 2: ([], ["di1", "di2"]), 3: ([], ["h4c4f4e47484541444552", "di1"]), 4: ([], ["ds706f7461746f", "di0", "db1"]),
           5: ([], ["dEp-200x6578", "dEc7:6f6f7073x6122", "dEp-113", "dEc9:78"]),           # error items, with and without extended text
           6: ([], ["ds2261222222", "ds22", "ds612262"]),                                       # strings made of quotes
           7: ([], ["da61623b"]),                                                               # a block whose last byte is the unit separator
-          8: ([], ["h434f4e466967757265", "h56", "di5"])}                                      # two header levels
+          8: ([], ["h434f4e466967757265", "h56", "di5"]),
+          9: ([], ["da61620a"])}                                      # two header levels
     out = []
     # typed parameters of every family through the library's own next_data::<T>: allocation-free (implementation only)
     tsub = [("L", b"P", False, 1), ("L", b"Q", False, 2)]
@@ -42,7 +43,7 @@ def corpus():
         tsc = {1: (["r:" + ty, "o:" + ty], ["r:" + ty, "di1"]), 2: ([], ["o:" + ty, "ds6f6b"])}
         msgs = [b"P 2 V,1", b"P 2.5 VPK", b"P 3 mVrms,2 KHZ", b"P? 1e3", b"Q? MAX", b"P 10 DBM;Q? 'x'", b"P (1,2:3),(@1!2);Q? #H10", b"P? 2.5;Q? 1,2", b"P DEF,UP;Q? 5 S"]
         out.append(mk(treegen.case_line("64", tsub, tsc, msgs), model=False))
-    for m in [b"NUM?;STR?", b"STR?;NUM?;NUM?", b"HDR?", b"THREE?", b"NUM?", b"ERRS?", b"NUM?;ERRS?", b"QUOT?", b"QUOT?;NUM?", b"BLK?;NUM?", b"BLK?;BLK?", b"NUM?;BLK?;STR?", b"HH?", b"NUM?;HH?"]:
+    for m in [b"NUM?;STR?", b"STR?;NUM?;NUM?", b"HDR?", b"THREE?", b"NUM?", b"ERRS?", b"NUM?;ERRS?", b"QUOT?", b"QUOT?;NUM?", b"BLK?;NUM?", b"BLK?;BLK?", b"NUM?;BLK?;STR?", b"HH?", b"NUM?;HH?", b"NLB?;NUM?", b"NLB?;NLB?", b"NUM?;NLB?", b"NLB?"]:
         out.append(mk(treegen.case_line("v", sub, sc, [m])))
         for cap in (range(0, 24) if b"ERRS" not in m else range(0, 80)):
             out.append(mk(treegen.case_line(str(cap), sub, sc, [m])))
